@@ -67,8 +67,49 @@ Arguments Done {A} t a.
 Arguments Panicked {A} site.
 Arguments NoFuel {A}.
 
+(* decimal descriptor numbers in "fd/<n>" *)
+Definition num (l : bytes) : N := fold_left (fun a c => a * 10 + (c - 48)) l 0.
+Definition parse_fd (path : bytes) : option Z :=
+  match path with
+  | 102 :: 100 :: 47 :: digits => Some (Z.of_N (num digits))     (* "fd/" *)
+  | _ => None
+  end.
+
+Definition PROC_MNT := 7.     (* mount id of the procfs instance behind the handle *)
+Definition FS_MNT := 3.       (* mount id of the file system the root lives on *)
+
 Section Static.
 Variable s : fs.
+(* the kernel's rendering (d_path) of the root directory *)
+Variable rootpath : bytes.
+
+(* ---- a minimal procfs, as much as as_unsafe_path needs: the handle's root, the
+   calling thread's directory, and one magic-link per open descriptor.  Objects of
+   the tree are numbered below [PB]; procfs objects from [PB] on. *)
+Definition PB : nat := length (FSModel.kinds s).
+Definition P_THREAD : nat := S PB.
+Definition P_LINK (target : nat) : nat := S (S PB) + target.
+
+Definition render (exp : list bytes) : bytes := fold_left (fun acc c => acc ++ SLASH :: c) exp rootpath.
+
+(* the name under which directory [d] holds object [o] *)
+Fixpoint name_in (es : list (nat * bytes * nat)) (d o : nat) : option bytes :=
+  match es with
+  | [] => None
+  | (d', n, c) :: r => if Nat.eqb d d' && Nat.eqb c o then Some n else name_in r d o
+  end.
+Fixpoint find_path_f (fuel o : nat) (acc : list bytes) : option (list bytes) :=
+  if Nat.eqb o ROOT then Some acc else
+  match fuel with
+  | O => None
+  | S f =>
+      let d := FSModel.parent_of s o in
+      match name_in (FSModel.ents s) d o with
+      | Some n => find_path_f f d (n :: acc)
+      | None => None
+      end
+  end.
+Definition find_path (o : nat) : option (list bytes) := find_path_f PB o [].
 
 Definition mode_of (k : FSModel.kind) : N :=
   match k with
@@ -106,19 +147,53 @@ Definition sem (t : fdt) (c : call) : sresp :=
       else match tget t fd with
            | None => SRet (RErr EBADF)
            | Some o => if is_nil path then SRet (RStat (mode_of (FSModel.kind_of s o)) 0 (N.of_nat o) 0)
+                       else if Nat.eqb o PB && beq path (b "thread-self") then SRet (RStat S_IFLNK 0 0 0)
                        else SRet (RErr ENOSYS)
            end
+  | Openat2 fd path _ _ _ =>
+      (* only the two lookups of as_unsafe_path on the procfs handle *)
+      match tget t fd with
+      | None => SRet (RErr (if Z.eqb fd AT_FDCWD then ENOSYS else EBADF))
+      | Some o =>
+          if Nat.eqb o PB then
+            (if beq path (b "thread-self") then SNew P_THREAD else SRet (RErr ENOSYS))
+          else if Nat.eqb o P_THREAD then
+            match parse_fd path with
+            | Some n => match tget t n with
+                        | Some target => SNew (P_LINK target)
+                        | None => SRet (RErr ENOENT)
+                        end
+            | None => SRet (RErr ENOSYS)
+            end
+          else SRet (RErr ENOSYS)
+      end
+  | Statx fd path _ _ =>
+      match tget t fd with
+      | None => SRet (RErr EBADF)
+      | Some o => if is_nil path then SRet (RStatx STATX_WANT_MASK (if Nat.leb PB o then PROC_MNT else FS_MNT))
+                  else SRet (RErr ENOSYS)
+      end
   | Readlinkat fd path =>
       match tget t fd with
       | None => SRet (RErr EBADF)
       | Some o => if negb (is_nil path) then SRet (RErr ENOSYS)
                   else match FSModel.link_body s o with
                        | Some body => SRet (RBytes body)
-                       | None => SRet (RErr ENOENT)
+                       | None =>
+                           (* a procfs fd/N magic-link: the path of the object descriptor N is open on *)
+                           if Nat.leb (S (S PB)) o then
+                             match find_path (o - S (S PB)) with
+                             | Some exp => SRet (RBytes (render exp))
+                             | None => SRet (RErr ENOENT)
+                             end
+                           else SRet (RErr ENOENT)
                        end
       end
   | Fstatfs fd =>
-      match tget t fd with None => SRet (RErr EBADF) | Some _ => SRet (RFsType TMPFS_MAGIC) end
+      match tget t fd with
+      | None => SRet (RErr EBADF)
+      | Some o => SRet (RFsType (if Nat.leb PB o then PROC_SUPER_MAGIC else TMPFS_MAGIC))
+      end
   | DupCloexec fd =>
       match tget t fd with None => SRet (RErr EBADF) | Some o => SNew o end
   | Close fd => SClose fd
@@ -149,8 +224,9 @@ Fixpoint run {A} (t : fdt) (p : prog A) : outcome A :=
    and counted. *)
 Definition tracked_call (t : fdt) (c : call) : bool :=
   match c with
-  | Openat fd _ _ _ | Readlinkat fd _ | Fstatfs fd | DupCloexec fd =>
+  | Openat fd _ _ _ | Openat2 fd _ _ _ _ | Readlinkat fd _ | Fstatfs fd | DupCloexec fd =>
       match tget t fd with Some _ => true | None => false end
+  | Statx fd path _ _ => match tget t fd with Some _ => is_nil path | None => false end
   | Fstatat fd path _ => match tget t fd with Some _ => is_nil path | None => false end
   | Close _ => true
   | _ => false
@@ -161,7 +237,8 @@ Definition resp_agrees (model real : resp) : bool :=
   | RErr a, RErr c => N.eqb a c
   | RStat m _ _ _, RStat m' _ _ _ => N.eqb (N.land m S_IFMT) (N.land m' S_IFMT)
   | RBytes x, RBytes y => beq x y
-  | RFsType _, RFsType _ => true
+  | RFsType x, RFsType y => Bool.eqb (N.eqb x PROC_SUPER_MAGIC) (N.eqb y PROC_SUPER_MAGIC)
+  | RStatx m _, RStatx m' _ => Bool.eqb (intersects m STATX_WANT_MASK) (intersects m' STATX_WANT_MASK)
   | RUnit, RUnit => true
   | RUnit, RNum _ => true
   | _, _ => false
